@@ -831,7 +831,7 @@ impl Property for C07 {
     }
 
     fn cases(tier: Tier) -> u32 {
-        tier.pick(20_000, 400_000)
+        tier.pick(20_000, 2_000_000)
     }
 
     fn run(case: &Case, ctx: &mut Ctx) {
